@@ -757,10 +757,13 @@ class KEval:
                     return r
                 if isinstance(shape, tuple):
                     shp = tuple(self.scalar(x) for x in shape)
-                elif isinstance(shape, (Poly, Ref)):
-                    shp = (self.scalar(shape),) if isinstance(shape, Poly) else None
-                    if isinstance(shape, ShapeOf):
-                        shp = None
+                elif isinstance(shape, Poly):
+                    shp = (shape,)
+                elif isinstance(shape, Ref):
+                    if "shape" in shape.name.split(".")[-1] and not shape.idx:
+                        shp = tuple(shape.index((Poly.const(k),)).poly() for k in range(3))  # a shape tuple of unknown rank
+                    else:
+                        shp = (shape.poly(),)
                 elif isinstance(shape, ShapeOf):
                     shp = None
                     r = Ref(hint or self.fresh("<alloc>"), (), True, None, init)
